@@ -286,7 +286,7 @@ impl Hashable for Bool {
 
 impl SerializableType for Bool {
     fn write_to(&self, writer: &mut [u8], cursor: usize) -> SerializationResult<usize> {
-        writer[cursor..].copy_from_slice(&[self.0 as u8]);
+        writer[cursor..cursor + 1].copy_from_slice(&[self.0 as u8]);
         Ok(cursor + 1)
     }
 }
